@@ -335,6 +335,7 @@ Proof.
   | unfold hSetConnectionClose; apply with_rh_clean; [exact H|]; hc; split; [now apply delAllArgsStable_clean|]; repeat split; assumption
   | apply with_rh_clean; [exact H|]; hc; repeat split; try assumption; apply Forall_app; split; [assumption|];
     repeat constructor; cbn; [now apply getCookieKey_nc | assumption]
+  | apply with_rh_clean; [exact H|]; hc; split; [now apply delAllArgsStable_clean|]; repeat split; assumption
   | apply with_rh_clean; [exact H|]; hc; repeat split; assumption ].
 Qed.
 
@@ -440,6 +441,7 @@ Proof.
   | apply with_qh_clean; [exact H|]; apply hsetNonSpecial_clean; try assumption; now apply hResetConnectionClose_clean
   | unfold hSetConnectionClose; apply with_qh_clean; [exact H|]; hc; split; [now apply delAllArgsStable_clean|]; repeat split; assumption
   | apply with_qh_clean; [exact Hcc|]; destruct Hcc as ((C1&C2&C3&C4&C5&C6)&_); hc; repeat split; try assumption; now apply prc_clean
+  | apply with_qh_clean; [exact H|]; hc; split; [now apply delAllArgsStable_clean|]; repeat split; assumption
   | apply with_qh_clean; [exact H|]; hc; repeat split; assumption ].
 Qed.
 
@@ -945,7 +947,8 @@ Proof.
   end; intros E; inversion E; subst; clear E; try exact H;
   first [ unfold RSetTrailerBytes; cbn [rh with_rh]; rewrite hSetTrailer_hh; exact H
         | cbn [rh with_rh]; unfold hsetNonSpecial; hc; apply setArg_keys; [now apply hReset_keys|exact Hk]
-        | cbn [rh with_rh]; unfold hSetConnectionClose; hc; now apply delAllArgsStable_keys ].
+        | cbn [rh with_rh]; unfold hSetConnectionClose; hc; now apply delAllArgsStable_keys
+        | cbn [rh with_rh]; hc; now apply delAllArgsStable_keys ].
 Qed.
 
 Lemma rstep_keys a r o : keys_ok a (hh (rh r)) -> rop_pre o -> keys_ok (a ++ rop_keys o) (hh (rh (rstep r o))).
@@ -998,6 +1001,7 @@ Proof.
   first [ unfold QSetTrailerBytes; cbn [qh with_qh]; rewrite hSetTrailer_hh; exact H
         | cbn [qh with_qh]; unfold hsetNonSpecial; hc; apply setArg_keys; [now apply hReset_keys|exact Hk]
         | cbn [qh with_qh]; unfold hSetConnectionClose; hc; now apply delAllArgsStable_keys
+        | cbn [qh with_qh]; hc; now apply delAllArgsStable_keys
         | cbn [qh with_qh]; hc; exact Hcc ].
 Qed.
 
